@@ -79,5 +79,30 @@ for sc in (SCN.SCENARIOS[1], SCN.SCENARIOS[5]):
                             'discard_exploration=True; run(); resume; '
                             'posterior()', what='raised {}: {}'.format(
                                 type(e).__name__, str(e)[:90])))
+# first shell removed at the end of exploration: the resumed bounds must be the
+# stored ones
+from nautilus import Sampler  # noqa: E402
+
+
+def _like(x):
+    return -np.linalg.norm(x - 0.5) * 0.001
+
+
+for seed in (0, 10):
+    with tempfile.TemporaryDirectory() as d:
+        path = os.path.join(d, 'e.h5')
+        kw = dict(n_dim=2, n_live=10, n_batch=1, n_update=1, n_networks=0,
+                  seed=seed, filepath=path)
+        s = Sampler(SCN.prior, _like, **kw)
+        s.run(n_eff=0, verbose=False)
+        s2 = Sampler(SCN.prior, _like, resume=True, **kw)
+        probe = np.random.default_rng(0).random((500, 2))
+        for i, (b1, b2) in enumerate(zip(s.bounds, s2.bounds)):
+            if type(b1) is not type(b2) or not np.array_equal(
+                    b1.contains(probe), b2.contains(probe)):
+                bad.append(dict(scenario='empty first shell, seed {}'.format(
+                    seed), what='bound {} differs after resume: {} vs {}'
+                    .format(i, type(b1).__name__, type(b2).__name__)))
+                break
 print(json.dumps(dict(violations=bad[:8]), default=str))
 sys.exit(1 if bad else 0)
